@@ -68,7 +68,7 @@ func corpusOpener(file string) source.Opener {
 }
 
 const (
-	c14Specials = 90 // pathological + cycles + opener faults
+	c14Specials = 110 // pathological + cycles + opener faults
 )
 
 func (c14) NumCases(tier string, seed int64) int {
@@ -462,6 +462,12 @@ func (p c14) special(c *core.Ctx, k int) {
 		sp{name: "identity-cycle-across-modules", byName: "a", mods: map[string]string{
 			"a": hdr("a") + "import b { prefix o; } identity ia { base o:ib; } leaf x { type identityref { base ia; } } }",
 			"b": hdr("b") + "import a { prefix m; } identity ib { base m:ia; } }"}},
+		sp{name: "augment-missing-rpc-input", text: hdr("m") + "rpc r { output { leaf o { type string; } } } augment \"/r/input\" { leaf c { type string; } } }"},
+		sp{name: "augment-below-missing-rpc-input", text: hdr("m") + "rpc r; augment \"/r/input/c\" { leaf d { type string; } } }"},
+		sp{name: "augment-missing-action-output", text: hdr("m") + "container c { action a { input { leaf i { type string; } } } } augment \"/c/a/output\" { leaf o { type string; } } }"},
+		sp{name: "deviation-missing-rpc-output", text: hdr("m") + "rpc r { input { leaf i { type string; } } } deviation \"/r/output\" { deviate not-supported; } }"},
+		sp{name: "leafref-thru-missing-rpc-output", text: hdr("m") + "rpc r { input { leaf i { type string; } } } leaf l { type leafref { path \"/r/output/o\"; } } }"},
+		sp{name: "augment-rpc-input-and-output", text: hdr("m") + "rpc r { input { leaf i { type string; } } output { leaf o { type string; } } } augment \"/r/input\" { leaf c { type string; } } augment \"/r/output\" { leaf d { type string; } } }"},
 		sp{name: "if-feature-deep-parens", text: hdr("m") + "feature f; leaf x { if-feature \"" + strings.Repeat("(", 20000) + "f" + strings.Repeat(")", 20000) + "\"; type string; } }"},
 	)
 	if k >= len(specials) {
